@@ -1,6 +1,9 @@
 //! Correspondence harness: drives the real `server` and `iggy` crates (feature `iggy_verif`).
 //! One binary, several modes; every mode reads operation lines on stdin and answers one result
 //! line per operation on stdout (see DESIGN.md §2.2, Appendix A).
+mod codec;
+mod codec_desc;
+mod codec_gen;
 mod journal;
 mod node;
 mod perm;
@@ -22,6 +25,9 @@ fn main() {
     match mode {
         "node" => rt.block_on(node::run()),
         "perm" => perm::run(&args[2..]),
+        "codec" => codec::run(&args[2..]),
+        "codec-decode" => codec::decode(&args[2..]),
+        "codec-mutate" => codec::mutate_run(&args[2..]),
         "journal" => rt.block_on(journal::run(&args[2])),
         "hash" => {
             // one hex string per line -> xxhash32 as the server computes it (keys, named consumers)
